@@ -77,7 +77,10 @@ def handle(run, results, build, what='entries differ from the oracle'):
         cfg = res['cfg']
         # one exact-rational replay per configuration; violations are keyed by obligation family (name up to '[')
         try:
-            bad, info = concrete_replay(build, cfg, sats[0]['model'])
+            try:
+                bad, info = concrete_replay(build, cfg, sats[0]['model'])
+            except (ZeroDivisionError, ArithmeticError):
+                bad = []        # the solver's point is singular for the exact run (a denominator vanishes there)
             if not bad:
                 # the solver's point may sit on a special locus for the exact atoms: try a generic seeded point
                 bad, info = concrete_replay(build, dict(cfg, seed=run.seed + 1), {})
